@@ -179,12 +179,8 @@ func ReadResponse(r *bufio.Reader) (*Response, error) {
 	}
 
 	// 读取Body
-	cl := resp.Header.Int(FieldContentLength)
-	if cl > 0 {
-		// 读取 n 字节的字串Body
-		body := make([]byte, cl)
-		_, err = io.ReadFull(r, body)
-		resp.Body = string(body)
+	if resp.Body, err = readBody(r, resp.Header); err != nil {
+		return nil, err
 	}
 	return resp, nil
 }
